@@ -8,6 +8,8 @@ NOTE = ("Trusted: z3 5.1 / cvc5 1.0.3 verdicts; the pyvc executor's encoding of 
         "bs4/lxml/cssutils; floats under the standard error model (binary64, round-to-nearest, no overflow); "
         "the bounded parts are run-time contract evaluation, never counted as proof. See evidence/<id>.json.")
 CLAIMED = {
+ "C15": ("contract-based deductive verification of the scan region with a loop invariant (array model of the defaultdict, spec fold ACC) + bounded run-time contracts on SCC streams",
+         "P (any number of captions): after the scan every key holds the concatenation of the over-long lines of all captions with that start time, in order - nothing is lost when captions share a start time; B: streams in all three modes, rows of 0-40 chars, captions sharing a start time in every order: raise naming every long row iff some row exceeds 32", "3 C15"),
  "C19": ("contract-based deductive verification with loop invariants (AST->SMT VCs over z3 sequences and a field-array heap; spec folds) + exhaustive bounded enumeration of small lists",
          "P (unbounded list lengths): adjust_caption_timing maps every time to t*skew+offset, keeps exactly the non-negative starts in order, nodes untouched; merge joins all nodes separated by breaks with the first caption times/style; merge_concurrent_captions yields one merged caption per maximal run in order, inputs unmodified. B: all lists up to length 5 incl. idempotence and the two writers that use the merge", "3 C19"),
  "C12": ("contract-based deductive verification (AST->SMT VCs on the WebVTT cue-settings arithmetic and the DFXP layout/alignment attribute functions) + bounded DFXP write/read round trips",
